@@ -127,7 +127,7 @@ func c11Sensitive(k string) bool {
 
 // TestVerif_C11_e2e: scripted redirect chains through the real client.
 func TestVerif_C11_e2e(t *testing.T) {
-	s := verifh.New(t, "C11", "e2e",
+	s := c11New(t, "e2e",
 		"real Client (SetRedirectPolicy compositions, SetDial mapping any authority to 3 loopback origins, keep-alives off) following scripted 302 chains of 0..limit+1 hops over RFC-valid authorities (names any case/trailing dot/ports, IPv4, bracketed IPv6 ± zone ± port; related spellings and near misses of the first host); request carries Authorization, Cookie, custom and multi-valued headers; compared with the model chain (requests received in order, per-hop header values, outcome) and judged by the oracle: number of requests = hops the net/url oracle says every policy allows, each connection dialled to the hop's hostname, sensitive headers only where Go's same-domain rule or an AlwaysCopy policy allows, custom headers everywhere; non-trivial = ≥1 redirect scripted")
 	r := s.Rand()
 	farm := newC11Farm(t, 3)
@@ -361,5 +361,5 @@ func TestVerif_C11_e2e(t *testing.T) {
 			c11EncHeaders(ih) + " " + verifh.HexList(probes)
 		s.Case(line, ans, ok, class, m > 0, human)
 	}
-	s.Finish()
+	s.FinishRequire("outcome:final", "outcome:refused", "outcome:last", "cross-origin-strip", "pol:copy", "pol:samehost", "pol:samedomain", "pol:ahost", "pol:adomain", "pol:no", "pol:nil", "pol:max", "hops-scripted:0", "hops-scripted:3", "host0-normalised-by-client")
 }
